@@ -285,6 +285,13 @@ func (h *Handler) proxy(down *layer4.Connection, upConns []net.Conn) {
 			defer wg.Done()
 
 			if _, err := io.Copy(down, up); err != nil {
+				// This direction is broken: either the upstream failed or the client
+				// is gone. Nobody reads from this upstream any more, so the goroutine
+				// below may be blocked for good writing to it (its peer cannot drain
+				// while its own output is stuck); closing it lets that write fail,
+				// the relay wind down and Handle return.
+				_ = up.Close()
+
 				// If the downstream connection has been closed, we can assume this is
 				// the reason io.Copy() errored.  That's normal operation for UDP
 				// connections after idle timeout, so don't log an error in that case.
